@@ -37,6 +37,8 @@ func (e *Engine) RunRoot(fn *ssa.Function) (err error) {
 	e.resetSymbolic()
 	e.rootKey = shortKey(funcKey(fn))
 	e.rootContract = e.contractFor(fn)
+	e.tm.noStrLen = e.rootContract != nil && e.rootContract.Flags["nostrlen"] != ""
+	e.u.abstractStrings = e.rootContract != nil && e.rootContract.Flags["opaque_strings"] != ""
 	e.rootInputs = nil
 	e.registerReplayTarget(fn, e.modDir)
 	e.funcsTouched[funcKey(fn)] = true
@@ -1564,6 +1566,7 @@ func (e *Engine) checkEnsures(s *State, fr *Frame, results []Value, ret *ssa.Ret
 		return
 	}
 	resMap, resTypes := e.resultBindings(fr.fn, results)
+	e.coordCheckFresh(s, fr, results, ret) // models_coord.go: `returns_fresh` on a first-party function
 	for i, cl := range c.Ensures {
 		t, err := e.evalClause(s, fr, cl, resMap, resTypes)
 		if err != nil {
